@@ -20,8 +20,13 @@ ASSUMPTIONS = [
 W = 128
 
 
+def prepare():
+    from mirsym import pipe
+    pipe.dump()
+
+
 def jobs(tier, seed):
-    return ['kern-hex', 'kern-bits', 'kern-octet', 'kern-named', 'kern-oid'] + [f"values{i}" for i in range(8)]
+    return ['kern-hex', 'kern-bits', 'kern-octet', 'kern-named', 'kern-oid'] + [f"kern-cstr{i}" for i in range(4)] + [f"values{i}" for i in range(8)]
 
 
 # ---------------------------------------------------------------------------------------------- kernels
@@ -254,6 +259,130 @@ def job_oid(prog, chk, tier):
     chk.res.bounds['oid'] = 'X.660 well-known arc table x every root (u8 symbolic)'
 
 
+CSTRING = 'rasn_compiler::lexer::character_string::cstring'
+NLS, SPS = (10, 11, 12, 13), (9, 32)
+
+
+def job_cstr(chk, k, n, tier):
+    """cstring() from real MIR on `"` u1 .. uk `"`: every unit is a symbolic character (any scalar value except `"`)
+    or the pair `""`; X.680 12.14.1 decides which characters the denoted string keeps: a pair denotes one `"`, an end
+    of line is dropped, spacing (HT, SPACE) is dropped when only spacing separates it from an end of line."""
+    import itertools
+    from mirsym import pipe, native
+    from mirsym.harness import program
+    from .scan import mk_input
+    prog = chk.ex.p
+    fn = prog.find(CSTRING)
+    input_ty = prog.inst[fn]['locals'][1]
+    ex0 = chk.ex
+    ex0.max_path_steps = 2000000
+    kmax = 4 if tier == 'quick' else 5
+    works = [pat for ln in range(0, kmax + 1) for pat in itertools.product('cq', repeat=ln)]
+    runner = native.Runner()
+    try:
+        for pat in works[k::n]:
+            cs = [z3.BitVec(f"u{i}", 32) for i in range(len(pat))]
+            chars = [34]
+            for u, c in zip(pat, cs):
+                chars += [c] if u == 'c' else [34, 34]
+            chars += [34, 32, 88]
+            sig = f"C07 cstring units[{''.join(pat)}]"
+
+            def run(ex, cs=cs, chars=chars, pat=pat):
+                for u, c in zip(pat, cs):
+                    if u == 'c':
+                        ex.assume(z3.And(c != 34, z3.ULE(c, 0x10FFFF), z3.Or(z3.ULT(c, 0xD800), z3.UGT(c, 0xDFFF))))
+                res = ex.call(fn, [mk_input(ex, prog, input_ty, chars)])
+                from mirsym.refsem import IR
+                ir = IR(ex)
+                r = ir.f(res)
+                if ir.vn(r) != 'Ok':
+                    return ('err', None)
+                tup = ir.f(r.fields[0])
+                return ('ok', ir.f(tup.fields[1]))
+            for r in chk.explore(run):
+                if r.kind != 'ok':
+                    if r.kind == 'panic':
+                        chk.violation(sig + ' panic', f"cstring panics: {r.value[0]}", {'kind': 'kernel'})
+                    continue
+                chk.res.obligations += 1
+                if r.value[0] != 'ok':
+                    got = None
+                else:
+                    sv = r.value[1]
+                    got = list(sv.chars)
+                # reference: kept_i per unit, as formulas over the symbolic characters
+                isnl = [z3.Or([c == x for x in NLS]) if u == 'c' else z3.BoolVal(False) for u, c in zip(pat, cs)]
+                issp = [z3.Or([c == x for x in SPS]) if u == 'c' else z3.BoolVal(False) for u, c in zip(pat, cs)]
+                L = len(pat)
+                kept = []
+                for i in range(L):
+                    right = z3.Or([z3.And([issp[j] for j in range(i + 1, t)] + [isnl[t]]) for t in range(i + 1, L)]) if i + 1 < L else z3.BoolVal(False)
+                    left = z3.Or([z3.And([issp[j] for j in range(t + 1, i)] + [isnl[t]]) for t in range(0, i)]) if i > 0 else z3.BoolVal(False)
+                    kept.append(z3.And(z3.Not(isnl[i]), z3.Or(z3.Not(issp[i]), z3.And(z3.Not(right), z3.Not(left)))))
+                # the output of this path as a sequence of terms; the reference sequence has the kept units in order:
+                # equal iff for every output length the j-th output is the j-th kept unit - decided per path by the solver
+                unit_term = [c if u == 'c' else z3.BitVecVal(34, 32) for u, c in zip(pat, cs)]
+                if got is None:
+                    prop = z3.BoolVal(False)
+                else:
+                    gl = [g if not isinstance(g, int) else z3.BitVecVal(g, 32) for g in got]
+                    cnt = z3.Sum([z3.If(kk, 1, 0) for kk in kept]) if kept else z3.IntVal(0)
+                    conj = [cnt == len(gl)]
+                    # position of unit i in the reference = number of kept units before it
+                    for i in range(L):
+                        pos = z3.Sum([z3.If(kept[t], 1, 0) for t in range(i)]) if i else z3.IntVal(0)
+                        for j in range(len(gl)):
+                            conj.append(z3.Implies(z3.And(kept[i], pos == j), gl[j] == unit_term[i]))
+                    prop = z3.And(conj)
+                m = chk.holds(r.pc, prop, 'cstring-denotation')
+                if not m:
+                    chk.res.discharged += 1
+                    continue
+                content = ''.join(chr(model_int(m, c, False)) if u == 'c' else '""' for u, c in zip(pat, cs))
+                # native replay: the value assignment and its reference denotation
+                keep = []
+                raw_units = [chr(model_int(m, c, False)) if u == 'c' else '"' for u, c in zip(pat, cs)]
+                for i, ch in enumerate(raw_units):
+                    nl = lambda t: pat[t] == 'c' and ord(raw_units[t]) in NLS
+                    sp = lambda t: pat[t] == 'c' and ord(raw_units[t]) in SPS
+                    if nl(i):
+                        continue
+                    if sp(i):
+                        t = i + 1
+                        while t < L and sp(t):
+                            t += 1
+                        if t < L and nl(t):
+                            continue
+                        t = i - 1
+                        while t >= 0 and sp(t):
+                            t -= 1
+                        if t >= 0 and nl(t):
+                            continue
+                    keep.append(ch)
+                want = ''.join(keep)
+                text = f'M DEFINITIONS AUTOMATIC TAGS ::= BEGIN v UTF8String ::= "{content}" END'
+                out = runner.compile(text)
+                ok = False
+                if out.get('ok'):
+                    ev = Evaluator(tokproj.project_text(out['generated']))
+                    try:
+                        c0 = ev.consts.get('V')
+                        g = ev.ev(c0.expr) if c0 is not None else None
+                        ok = g is not None and g[0] == 'str' and ''.join(map(chr, g[1])) == want
+                    except EvalError:
+                        ok = False
+                if not ok:
+                    chk.violation(sig, f"the cstring \"{content!r}\" denotes {want!r} (X.680 12.14.1) but the lexer yields {chars_repr(got) if got is not None else 'a parse error'}", {'kind': 'text', 'text': text, 'oracle': 'value'})
+                else:
+                    chk.res.inconclusive.append(f"not reproduced natively: {sig} content {content!r}")
+            chk.witness('cstring kernel explored', True)
+        chk.sample({'kernel': CSTRING, 'unit patterns': len(works[k::n])})
+    finally:
+        runner.close()
+    chk.res.bounds['cstring'] = f"<= {kmax} units, each any Unicode scalar value except the quotation mark, or a doubled quotation mark"
+
+
 # ---------------------------------------------------------------------------------------------- value shapes
 class V:
     """source abstract value"""
@@ -301,6 +430,13 @@ def value_shapes(tier):
             if st == 'PrintableString' and '"' in un:
                 continue
             add(f"C07 value {st} {s!r}", [], 'v', st, f'"{s}"', V('str', s=un), 0)
+    # multi-byte characters; a cstring spanning lines (X.680 12.14.1: the end of line and the spacing around it are not part of the string)
+    for st in ['UTF8String', 'BMPString', 'UniversalString']:
+        for s in ['\u00e9\u20ac', '\u65e5\u672c', 'a\U0001F600b'][:3 if st != 'BMPString' else 2]:
+            add(f"C07 value {st} multi-byte {s!r}", [], 'v', st, f'"{s}"', V('str', s=s), 0)
+    for raw, den in [('ab \n   cd', 'abcd'), ('ab\r\n\tcd', 'abcd'), ('a b\nc d', 'a bc d'), ('ab\n\n  cd', 'abcd'), ('ab""\n  ""cd', 'ab""cd')]:
+        add(f"C07 value UTF8String spanning lines {raw!r}", [], 'v', 'UTF8String', f'"{raw}"', V('str', s=den), 0)
+        add(f"C07 default UTF8String spanning lines {raw!r}", [f'Ss ::= SEQUENCE {{ x UTF8String DEFAULT "{raw}" }}'], None, None, None, V('str', s=den), 0, dflt='ss_x_default')
     for bits in ['', '1', '1011', '00000001', '101100111']:
         add(f"C07 value bstring {bits!r}", [], 'v', 'BIT STRING', f"'{bits}'B", V('bits', bits=[c == '1' for c in bits]), 0)
     for hx in ['', 'A5', '0F', 'A5FF', '123']:
@@ -370,6 +506,27 @@ def value_shapes(tier):
     add("C07 default SEQUENCE via type ref declared later", [f"Outer ::= SEQUENCE {{ i Inner DEFAULT {{ n {PH(0)}, b TRUE }} }}", in2], None, None, None, v2(0), 1, dflt='outer_i_default')
     add("C07 default SEQUENCE OF via type ref", ['Ll ::= SEQUENCE OF INTEGER', f"Outer ::= SEQUENCE {{ i Ll DEFAULT {{ {PH(0)}, {PH(1)} }} }}"], None, None, None, V('list', items=[I(0), I(1)]), 2, dflt='outer_i_default')
     add("C07 default CHOICE via type ref", ['Cc ::= CHOICE { p INTEGER, q NULL }', f"Outer ::= SEQUENCE {{ i Cc DEFAULT p:{PH(0)} }}"], None, None, None, V('choice', alt='p', inner=I(0)), 1, dflt='outer_i_default')
+    # value references at top level: resolved to the value they name (chains, both declaration orders, alias types)
+    add('C07 value reference declared later', [], 'v', 'INTEGER', f"w w INTEGER ::= {PH(0)}", I(0), 1)
+    add('C07 value reference chain', [f"c INTEGER ::= {PH(0)}", 'b INTEGER ::= c'], 'v', 'INTEGER', 'b', I(0), 1)
+    add('C07 value reference chain declared later', [], 'v', 'INTEGER', f"b b INTEGER ::= c c INTEGER ::= {PH(0)}", I(0), 1)
+    add('C07 value reference ref-type', ['Tt ::= INTEGER', f"w Tt ::= {PH(0)}"], 'v', 'Tt', 'w', I(0), 1)
+    add('C07 value reference constrained ref-type', ['Tt ::= INTEGER (0..4294967295)', f"w Tt ::= {PH(0)}"], 'v', 'Tt', 'w', I(0), 1)
+    add('C07 value reference to named number value', ['Tt ::= INTEGER { big(%d) }' % PH(0), 'w Tt ::= big'], 'v', 'Tt', 'w', I(0), 1)
+    add('C07 value reference enumerated', ['Ee ::= ENUMERATED { one, two }', 'w Ee ::= two'], 'v', 'Ee', 'w', V('enum', name='two'), 0)
+    add('C07 value reference boolean chain', ['c BOOLEAN ::= TRUE', 'b BOOLEAN ::= c'], 'v', 'BOOLEAN', 'b', V('bool', b=True), 0)
+    add('C07 value reference string', ['w UTF8String ::= "a""b"'], 'v', 'UTF8String', 'w', V('str', s='a"b'), 0)
+    add('C07 value reference bits', ["w BIT STRING ::= '1011'B"], 'v', 'BIT STRING', 'w', V('bits', bits=[True, False, True, True]), 0)
+    add('C07 value reference octets', ["w OCTET STRING ::= 'A5FF'H"], 'v', 'OCTET STRING', 'w', V('bytes', by=[0xA5, 0xFF]), 0)
+    add('C07 value reference SEQUENCE', [in2, f"w Inner ::= {{ n {PH(0)}, b TRUE }}"], 'v', 'Inner', 'w', v2(0), 1)
+    add('C07 value reference SEQUENCE OF', ['Ll ::= SEQUENCE OF INTEGER', f"w Ll ::= {{ {PH(0)}, {PH(1)} }}"], 'v', 'Ll', 'w', V('list', items=[I(0), I(1)]), 2)
+    add('C07 value reference CHOICE', ['Cc ::= CHOICE { p INTEGER, q NULL }', f"w Cc ::= p:{PH(0)}"], 'v', 'Cc', 'w', V('choice', alt='p', inner=I(0)), 1)
+    add('C07 value reference inside CHOICE', ['Cc ::= CHOICE { p INTEGER, q NULL }', f"w INTEGER ::= {PH(0)}"], 'v', 'Cc', 'p:w', V('choice', alt='p', inner=I(0)), 1)
+    add('C07 value reference inside SEQUENCE OF', [f"w INTEGER ::= {PH(0)}", 'Ll ::= SEQUENCE OF INTEGER'], 'v', 'Ll', f"{{ w, {PH(1)}, w }}", V('list', items=[I(0), I(1), I(0)]), 2)
+    add('C07 value reference inside SEQUENCE', [in2, f"w INTEGER ::= {PH(0)}"], 'v', 'Inner', "{ n w, b TRUE }", v2(0), 1)
+    add('C07 default value reference SEQUENCE', [in2, f"w Inner ::= {{ n {PH(0)}, b TRUE }}", 'Outer ::= SEQUENCE { i Inner DEFAULT w }'], None, None, None, v2(0), 1, dflt='outer_i_default')
+    add('C07 default value reference enumerated', ['Ee ::= ENUMERATED { one, two }', 'w Ee ::= two', 'Outer ::= SEQUENCE { i Ee DEFAULT w }'], None, None, None, V('enum', name='two'), 0, dflt='outer_i_default')
+    add('C07 default value reference chain', [f"c INTEGER ::= {PH(0)}", 'b INTEGER ::= c', 'Outer ::= SEQUENCE { i INTEGER DEFAULT b }'], None, None, None, I(0), 1, dflt='outer_i_default')
     # values that are lexically OBJECT IDENTIFIER values: a list with one element, components given by identifiers
     add("C07 value one-element SEQUENCE OF", ['Ll ::= SEQUENCE OF INTEGER'], 'v', 'Ll', f"{{ {PH(0)} }}", V('list', items=[I(0)]), 1)
     add("C07 default one-element SEQUENCE OF via type ref", ['Ll ::= SEQUENCE OF INTEGER', f"Outer ::= SEQUENCE {{ i Ll DEFAULT {{ {PH(0)} }} }}"], None, None, None, V('list', items=[I(0)]), 1, dflt='outer_i_default')
@@ -507,7 +664,7 @@ class Evaluator:
                 if last == 'new' and path[-2] not in ('Integer', 'String', 'Utf8String', 'Oid', 'ObjectIdentifier', 'BitString', 'OctetString') and len(args) != 1:
                     return ('struct', path[-2], args)
                 if len(args) == 1:
-                    if last == 'new' and path[-2][0].isupper() and path[-2] not in ('Integer', 'String', 'Oid'):
+                    if last == 'new' and path[-2][0].isupper() and path[-2] not in ('Integer', 'String', 'Oid', 'UniversalString', 'Utf8String'):
                         return ('struct', path[-2], args)
                     return args[0]
             if last in ('const_new', 'new_unchecked'):
@@ -517,6 +674,8 @@ class Evaluator:
                 st = self.structs.get(path[0])
                 if st is not None and not st.tuple:
                     raise EvalError(f"`{path[0]} (..)` is written as a tuple constructor, but {path[0]} is generated as a struct with named fields")
+                if st is None and path[0] not in ('Some', 'Box'):
+                    raise EvalError(f"`{path[0]} (..)` is written as a tuple constructor, but no tuple struct {path[0]} is generated")
                 return ('wrap', path[0], args[0]) if len(args) == 1 else ('struct', path[0], args)
             if len(path) == 2:
                 return ('variant', path[0], path[1], args[0] if len(args) == 1 else args)
@@ -638,6 +797,12 @@ def run_job(prog, job, tier, seed):
         job_named(prog, chk, tier)
     elif job == 'kern-oid':
         job_oid(prog, chk, tier)
+    elif job.startswith('kern-cstr'):
+        from mirsym import pipe
+        from mirsym.harness import program
+        chk = Checker(program(pipe.dump()), job)
+        chk.res.bounds = {}
+        job_cstr(chk, int(job[9:]), 4, tier)
     else:
         i = int(job[6:])
         gen = bridge.Gen(prog)
